@@ -185,7 +185,10 @@ static std::string run_object(Object* obj) {
             std::string n = e->d_name;
             // other shards own their own <pid> directories (all digits)
             bool digits = !n.empty() && std::all_of(n.begin(), n.end(), [](char c) { return c >= '0' && c <= '9'; });
-            if (n != "." && n != ".." && n != self && !digits && escape.empty()) escape = parent + "/" + n;
+            if (n != "." && n != ".." && n != self && !digits) {
+              if (escape.empty()) escape = parent + "/" + n;
+              rm_rf(parent + "/" + n);      // do not let one escape poison later cases / runs
+            }
           }
           closedir(dd);
         }
